@@ -83,6 +83,7 @@ static void ru_hist_add(const char *fmt, ...)
 	va_start(ap, fmt);
 	vsnprintf(t, sizeof t, fmt, ap);
 	va_end(ap);
+	vf_log("  context step: %s\n", t);
 	l = strlen(t); h = strlen(ru_hist);
 	if (h + l + 2 >= sizeof ru_hist) {      /* keep the tail */
 		size_t drop = h / 2;
